@@ -362,7 +362,7 @@ def direct_oracles(ctx, n_pairs):
             fails.append({"law": "month-id", "id": i, "start": str(s), "end": str(e)})
             break
     # 4. unit dispatch tables: calculate_dev_lag / Cell.dev_lag / standardize_resolution / resolution_delta
-    from bermuda.base.cell import Cell
+    import bermuda as bermuda_mod
 
     units_month = ["month", "months", "Month", "MONTHS"]
     units_day = ["day", "days", "Day", "DAYS"]
@@ -384,11 +384,29 @@ def direct_oracles(ctx, n_pairs):
                du.calculate_dev_lag(pe, ev, um))
         want = (days, datetime.timedelta(days=days), du.dev_lag_months(pe, ev))
         ps = datetime.date.fromordinal(pe.toordinal() - rng.randint(0, 400))
-        c = Cell(period_start=ps, period_end=pe, evaluation_date=ev, values={})
+        # every cell class; a third of the cells are evaluated while their period is still open (negative lag)
+        if it % 3 == 0 and ps < pe:
+            ev = datetime.date.fromordinal(rng.randint(ps.toordinal(), pe.toordinal()))
+            days = ev.toordinal() - pe.toordinal()
+            got = (du.calculate_dev_lag(pe, ev, ud), du.calculate_dev_lag(pe, ev, "timedelta"),
+                   du.calculate_dev_lag(pe, ev, um))
+            want = (days, datetime.timedelta(days=days), du.dev_lag_months(pe, ev))
+        kind = ("Cell", "CumulativeCell", "IncrementalCell")[(it // 3) % 3]
+        kw = dict(period_start=ps, period_end=pe, evaluation_date=ev, values={})
+        if kind == "IncrementalCell":
+            prev = datetime.date.fromordinal(max(1, min(ev.toordinal(), ps.toordinal()) - rng.randint(1, 400)))
+            kw["prev_evaluation_date"] = prev
+        c = getattr(bermuda_mod, kind)(**kw)
         got2 = (c.dev_lag(ud), c.dev_lag("timedelta"), c.dev_lag(um), c.dev_lag())
         want2 = want + (want[2],)
-        if got != want or got2 != want2 or type(got[0]) is not int:
-            fails.append({"law": "dev-lag-units", "period_end": str(pe), "evaluation_date": str(ev),
+        if kind == "IncrementalCell":
+            pdays = ev.toordinal() - prev.toordinal()
+            got2 += (c.eval_lag(ud), c.eval_lag("timedelta"), c.eval_lag(um), c.eval_lag())
+            want2 += (pdays, datetime.timedelta(days=pdays), du.dev_lag_months(prev, ev), du.dev_lag_months(prev, ev))
+        ctx.hist("oracle:unit-dispatch:" + kind + (":open-period" if ev < pe else ""))
+        if got != want or got2 != want2 or type(got[0]) is not int or type(got2[0]) is not int:
+            fails.append({"law": "dev-lag-units", "cell_class": kind, "period_start": str(ps), "period_end": str(pe),
+                          "evaluation_date": str(ev), "prev_evaluation_date": str(kw.get("prev_evaluation_date")),
                           "got": repr(got + got2), "want": repr(want + want2)})
             break
         q = rng.randint(1, 24)
@@ -637,5 +655,19 @@ def replay(ctx, data):
         if du._is_month_end(d):
             bad = bad or r != du.id_to_month(t, False) or du.add_months(r, -k) != d
         return 1 if bad else 0
+    if law == "dev-lag-units" and "cell_class" in data:
+        import bermuda as bm
+
+        kw = dict(period_start=D(data["period_start"]), period_end=D(data["period_end"]),
+                  evaluation_date=D(data["evaluation_date"]), values={})
+        if data["cell_class"] == "IncrementalCell":
+            kw["prev_evaluation_date"] = D(data["prev_evaluation_date"])
+        c = getattr(bm, data["cell_class"])(**kw)
+        days = (c.evaluation_date - c.period_end).days
+        got = (c.dev_lag("day"), c.dev_lag("timedelta"), c.dev_lag("month"),
+               du.calculate_dev_lag(c.period_end, c.evaluation_date, "day"))
+        want = (days, datetime.timedelta(days=days), du.dev_lag_months(c.period_end, c.evaluation_date), days)
+        print(f"{data['cell_class']} {kw}: dev_lag day/timedelta/month + calculate_dev_lag = {got}, want {want}")
+        return 0 if got == want else 1
     print("replay data:", data)
     return 1
